@@ -82,6 +82,7 @@ fn dispatch(w: &[&str]) -> String {
         "sink" => sinkop::run_raw(&w[1..]), "sinkenc" => sinkop::run_enc(&w[1..]), "sinkval" => sinkop::run_val(&w[1..]), "encseq" => sinkop::run_encseq(&w[1..]), "sinkiter" => sinkop::run_iter(&w[1..]),
         "display" => dispop::run(&w[1..]),
         "cli" => dispop::run_cli(&w[1..]),
+        "displayf" => dispop::run_f(&w[1..]),
         "displayat" => dispop::run_at(&w[1..]),
         "aiter" => decop::run_aiter(&w[1..]),
         "reuse" => decop::run_reuse(&w[1..]),
